@@ -1493,7 +1493,7 @@ def run_e2e(ctx, ch: Channel):
             pairs += 1
             if ctx.thorough:
                 x = lrng.random()
-                hs = (e2e_headers(ctx, res, lrng) if x < .06 else compact_headers(ctx, res, lrng) if x < .5
+                hs = (e2e_headers(ctx, res, lrng) if x < .04 else compact_headers(ctx, res, lrng) if x < .3
                       else SMALL_HEADERS + header_region_headers(lrng, res.length, extra=6))
             elif lrng.random() < .06:
                 hs = compact_headers(ctx, res, lrng)
